@@ -483,6 +483,21 @@ func chunkedSeq(e *env, prop string, mode int) {
 		cases = lossCases(maxN)
 		w.Res.Exhaustive = true
 	} else {
+		// corpus: directed cases kept from earlier findings run first
+		ds := 1184 - 71 - 3 - 16
+		cases = append(cases,
+			// get-and-touch does not rewrite the metadata's Exptime; a later append re-sets the key with the stale one
+			hCase{Keys: []string{"key"}, Spare: []int{0}, Ops: []hOp{
+				{Kind: "set", Key: 0, Len: 10, Seed: 1, TTL: 1000}, {Kind: "gat", Key: 0, TTL: 5000}, {Kind: "append", Key: 0, Len: 5, Seed: 2},
+				{Kind: "get", Key: 0, Keys: []int{0}}}},
+			// a set with an absolute TTL in the past is acknowledged without effect
+			hCase{Keys: []string{"key"}, Spare: []int{0}, Ops: []hOp{
+				{Kind: "set", Key: 0, Len: 2*ds + 1, Seed: 3}, {Kind: "set", Key: 0, Len: 7, Seed: 4, TTLRel: "abs-past", TTL: 5},
+				{Kind: "get", Key: 0, Keys: []int{0}}}},
+			// touch of a key whose slice has spare capacity (aliasing, fixed)
+			hCase{Keys: []string{"foo"}, Spare: []int{13}, Ops: []hOp{
+				{Kind: "set", Key: 0, Len: 2*ds + 1, Seed: 5, TTL: 100}, {Kind: "touch", Key: 0, TTL: 9000}, {Kind: "get", Key: 0, Keys: []int{0}}}},
+		)
 		n := 150
 		if thorough {
 			n = 3000
@@ -511,9 +526,16 @@ func chunkedSeq(e *env, prop string, mode int) {
 			nt = true
 		}
 		var tags []string
+		sawGat := map[int]bool{}
 		for _, op := range c.Ops {
 			if op.Kind == "gat" {
-				tags = append(tags, "chunked-gat-metadata-exptime-stale")
+				sawGat[op.Key] = true
+			}
+			if (op.Kind == "append" || op.Kind == "prepend") && sawGat[op.Key] {
+				tags = append(tags, "chunked-gat-then-append-stale-exptime")
+			}
+			if op.TTLRel == "abs-past" && (op.Kind == "set" || op.Kind == "add" || op.Kind == "replace") {
+				tags = append(tags, "chunked-set-absolute-past-ttl")
 			}
 		}
 		w.Add(rig.Case{Desc: c, Coq: coq, Nontrivial: nt, Tags: tags})
